@@ -18,6 +18,7 @@
 #define VERIF_C17_REFPOLL_H_
 
 #include <math.h>
+#include <algorithm>
 #include <stdio.h>
 #include <string>
 #include <vector>
@@ -92,6 +93,206 @@ struct RefPoll {
     return out;
   }
 };
+
+// ---- periodically perturbed runs -----------------------------------------------------------------
+// Pattern: repeat { q selections ; one perturbation of slot m }.
+//  kind 'P': priority of m set alternately to a and b (the call pattern of MainLoop: setPollPriority, and
+//            addPollMessage(false) when it returns true)
+//  kind 'F': addPollMessage(true, m)  (front insertion, priorities constant)
+//  kind 'A': m is (removed if defined and) defined anew with priority alternately a and b
+// What the statement fixes and the documented algorithm guarantees (v = smallest virtual time, g = virtual
+// time of the last selection, g <= v, every o_i in [v, v+p_i], a priority change sets o_m = min(o_m, g+p_new):
+// it never postpones m; a new message starts at g+p):
+//  (W') a message j other than m is selected at virtual times <= o_j only; consecutive selections of slot m are
+//       at least min(a,b) apart (after a selection at x its time is x+p_cur, lowered at most to g+p_new >= x+p_new;
+//       a new incarnation starts at g+p >= x+p), so while j waits m is selected at most floor(p_j/min(a,b))+1
+//       times: the bound formula with p_m = min(a,b) (and the initial priority of m while the wait began before
+//       the first perturbation).  For m itself under 'P': o_m <= (time it was selected or enabled) + largest
+//       priority it had in the window and is never postponed: the bound formula with p_m = max(a,b) (max with
+//       the initial priority for the wait that began before the first perturbation).
+//       Under 'A' every incarnation of m is a new message whose waiting starts anew: m is not judged.
+//  (F') for two messages i, j other than m (orders never touched by the perturbation): with V the virtual time
+//       of the last selection, n_i*p_i lies in [V-v-p_i, V-v+p_i], hence |n_i*p_i - n_j*p_j| <= p_i+p_j
+//       (equal priorities: at most 2 apart).  The share of m itself is not judged (its priority is not constant).
+//  'F' changes tie-breaks only: the unperturbed rules (W), (F), (E) apply unchanged.
+struct PerturbPattern {
+  char kind = 'P';
+  int m = 0, a = 1, b = 1, q = 1;
+  std::string str() const {
+    char s[48];
+    if (kind == 'F') snprintf(s, sizeof(s), "F%d:q%d", m, q);
+    else snprintf(s, sizeof(s), "%c%d:%d:%d:q%d", kind, m, a, b, q);
+    return s;
+  }
+  static bool parse(const std::string& t, PerturbPattern* p) {
+    int m, a, b, q;
+    char k;
+    if (sscanf(t.c_str(), "%c%d:%d:%d:q%d", &k, &m, &a, &b, &q) == 5 && (k == 'P' || k == 'A')) {
+      p->kind = k; p->m = m; p->a = a; p->b = b; p->q = q;
+    } else if (sscanf(t.c_str(), "F%d:q%d", &m, &q) == 2) {
+      p->kind = 'F'; p->m = m; p->a = p->b = 0; p->q = q;
+    } else {
+      return false;
+    }
+    return p->m >= 0 && p->m < 4 && p->q >= 1 && p->q <= 9 && p->a >= 0 && p->a <= 9 && p->b >= 0 && p->b <= 9;
+  }
+  // number of repetitions so that the run has at least 40*sum(p) selections (re-definition through the CSV
+  // reader is two orders of magnitude more expensive than a selection: 10*sum(p) there, still several times
+  // the largest waiting bound)
+  long repetitions(long sumPrio) const { return ((kind == 'A' ? 10 : 40) * sumPrio + q - 1) / q; }
+};
+
+// events: >= 0 selection of that slot, EV_NULL no message returned, EV_PERTURB the perturbation was applied
+static const int EV_NULL = -1, EV_PERTURB = -2;
+
+struct RefPerturbed {
+  PerturbPattern pat;
+  std::vector<int> prio0;  // per slot: -1 not defined, 0 defined without priority, > 0 priority at the start
+  RefPerturbed(const PerturbPattern& p, const std::vector<int>& p0) : pat(p), prio0(p0) {}
+
+  static long ceilDiv(long x, long y) { return (x + y - 1) / y; }
+
+  std::vector<RefPoll::Finding> judge(const std::vector<int>& events) const {
+    std::vector<RefPoll::Finding> out;
+    char buf[240];
+    size_t S = prio0.size();
+    if (pat.kind == 'F') {
+      // constant priorities: the unperturbed rules
+      std::vector<int> idx(S, -1), prio;
+      for (size_t k = 0; k < S; k++) if (prio0[k] > 0) { idx[k] = static_cast<int>(prio.size()); prio.push_back(prio0[k]); }
+      std::vector<int> seq;
+      for (int e : events) {
+        if (e == EV_PERTURB) continue;
+        seq.push_back(e >= 0 && e < static_cast<int>(S) ? idx[e] : -1);
+      }
+      for (auto& f : RefPoll(prio).judge(seq)) out.push_back({f.rule + "-perturbed", f.msg, f.detail});
+      return out;
+    }
+    std::vector<int> cur(prio0);           // current priority per slot (<= 0: not pollable)
+    std::vector<long> wait(S, 0), n(S, 0), worst(S, 0), worstBound(S, 0);
+    std::vector<bool> waitBeganBefore(S, true);  // the current wait began before the first perturbation
+    bool perturbed = false;
+    int toggles = 0;
+    int lo = std::min(pat.a, pat.b), hi = std::max(pat.a, pat.b);
+    size_t m = static_cast<size_t>(pat.m);
+    // bound for the current wait of slot j
+    auto bound = [&](size_t j) {
+      long pj = cur[j];
+      if (j == m) { pj = hi; if (waitBeganBefore[j] && prio0[j] > hi) pj = prio0[j]; }
+      long b = 0;
+      for (size_t i = 0; i < S; i++) {
+        if (i == j) continue;
+        long pi = cur[i];
+        if (i == m) {
+          // smallest priority slot m had while j was waiting
+          pi = perturbed ? lo : prio0[i];
+          if (waitBeganBefore[j] && prio0[i] > 0 && prio0[i] < pi) pi = prio0[i];
+          if (!perturbed && prio0[i] <= 0) continue;
+        }
+        if (pi <= 0) continue;
+        b += ceilDiv(pj, pi) + 2;
+      }
+      return b;
+    };
+    auto check = [&](size_t j) {
+      if (cur[j] <= 0) return;
+      if (pat.kind == 'A' && j == m) return;  // every incarnation is a new message
+      long b = bound(j);
+      if (wait[j] > b && wait[j] - b > worst[j] - worstBound[j]) { worst[j] = wait[j]; worstBound[j] = b; }
+    };
+    long k = 0;
+    for (int e : events) {
+      if (e == EV_PERTURB) {
+        int p = (toggles++ % 2 == 0) ? pat.a : pat.b;
+        if (pat.kind == 'A' || cur[m] <= 0) { wait[m] = 0; waitBeganBefore[m] = false; }  // new / newly enabled
+        cur[m] = p;
+        if (!perturbed) {
+          perturbed = true;
+        }
+        continue;
+      }
+      bool anyPollable = false;
+      for (size_t j = 0; j < S; j++) if (cur[j] > 0) anyPollable = true;
+      if (e == EV_NULL && !anyPollable) { k++; continue; }  // nothing to poll: nothing to judge
+      if (e < 0 || e >= static_cast<int>(S) || cur[static_cast<size_t>(e)] <= 0) {
+        snprintf(buf, sizeof(buf), "selection %ld returned %s", k, e < 0 ? "no pollable message" : "a message without priority");
+        out.push_back({"null-selection-perturbed", 0, buf});
+        return out;
+      }
+      size_t s = static_cast<size_t>(e);
+      for (size_t j = 0; j < S; j++) {
+        if (j == s || cur[j] <= 0) continue;
+        wait[j]++;
+        check(j);
+      }
+      wait[s] = 0;
+      waitBeganBefore[s] = !perturbed;
+      n[s]++;
+      k++;
+    }
+    for (size_t j = 0; j < S; j++) {
+      if (worst[j] > worstBound[j]) {
+        snprintf(buf, sizeof(buf), "%s message m%zu waited %ld selections, bound %ld", j == m ? "the perturbed" : "the unperturbed", j, worst[j], worstBound[j]);
+        out.push_back({"wait-bound-perturbed", j, buf});
+      }
+    }
+    for (size_t i = 0; i < S; i++) for (size_t j = i + 1; j < S; j++) {
+      if (i == m || j == m || prio0[i] <= 0 || prio0[j] <= 0) continue;
+      long d = n[i] * prio0[i] - n[j] * prio0[j];
+      if (d < 0) d = -d;
+      if (d > prio0[i] + prio0[j]) {
+        snprintf(buf, sizeof(buf), "unperturbed messages m%zu (priority %d) and m%zu (priority %d) selected %ld and %ld times: n*p differ by %ld, allowed %d",
+                 i, prio0[i], j, prio0[j], n[i], n[j], d, prio0[i] + prio0[j]);
+        out.push_back({"share-perturbed", i, buf});
+      }
+    }
+    return out;
+  }
+};
+
+// the documented algorithm with perturbations, for the self-test; variant 1 = the postponing defect
+// (every priority change of a waiting message restarts it at g+p)
+struct IdealPoll {
+  std::vector<long> o;
+  std::vector<int> p;   // <= 0 not pollable
+  long g = 0;
+  int tie = 0, variant = 0;
+  int next() {
+    int best = -1;
+    for (size_t i = 0; i < o.size(); i++) {
+      if (p[i] <= 0) continue;
+      if (best < 0 || o[i] < o[best] || (o[i] == o[best] && tie == 1)) best = static_cast<int>(i);
+    }
+    if (best < 0) return EV_NULL;
+    if (o[best] > g) g = o[best];
+    o[best] += p[best];
+    return best;
+  }
+  void setPrio(size_t m, int pr) {
+    if (p[m] == pr) return;
+    bool fresh = p[m] <= 0;
+    p[m] = pr;
+    if (fresh || (variant == 1 ? o[m] > g : o[m] > g + pr)) o[m] = g + pr;
+  }
+  void define(size_t m, int pr) { p[m] = pr; o[m] = g + pr; }
+};
+
+inline std::vector<int> idealPerturbedRun(IdealPoll* w, const PerturbPattern& pat) {
+  long sum = 0;
+  for (size_t i = 0; i < w->p.size(); i++) if (static_cast<int>(i) != pat.m && w->p[i] > 0) sum += w->p[i];
+  sum += pat.kind == 'F' ? std::max(0, w->p[static_cast<size_t>(pat.m)]) : std::max(pat.a, pat.b);
+  long R = pat.repetitions(sum);
+  std::vector<int> ev;
+  int toggles = 0;
+  for (long r = 0; r < R; r++) {
+    for (int i = 0; i < pat.q; i++) ev.push_back(w->next());
+    int pr = (toggles++ % 2 == 0) ? pat.a : pat.b;
+    if (pat.kind == 'P') w->setPrio(static_cast<size_t>(pat.m), pr);
+    else if (pat.kind == 'A') w->define(static_cast<size_t>(pat.m), pr);
+    ev.push_back(EV_PERTURB);
+  }
+  return ev;
+}
 
 // ---- self test: the ideal algorithm must satisfy the monitor from every state that keeps
 // o_i in [v, v+p_i], with either tie-break; hand-made unfair schedulers must be caught ------------
@@ -176,6 +377,53 @@ inline bool refPollSelfTest(std::string* why) {
     bool eq = false;
     for (auto& f : ref.judge(seq)) if (f.rule == "equal-priority") eq = true;
     if (!eq) { *why = "2:1 service of equal priorities not rejected"; return false; }
+  }
+  {  // perturbed runs: the documented algorithm passes for every pattern from every legal start offset of three
+     // messages; the postponing variant is rejected
+    static const int QS[4] = {1, 2, 3, 5};
+    bool defectSeen = false;
+    for (int t = 0; t < 64; t++) {
+      int pr[3] = {PR[t % 4], PR[(t / 4) % 4], PR[(t / 16) % 4]};
+      if (pr[0] > pr[1] || pr[1] > pr[2]) continue;
+      for (int offs : {0, 3, 5}) {
+        for (char kind : {'P', 'A', 'F'}) for (int m = 0; m < 3; m++) for (int ai = 0; ai < 4; ai++) for (int bi = 0; bi < 4; bi++) for (int qi = 0; qi < 4; qi++) {
+          if (kind == 'F' && (ai || bi)) continue;
+          PerturbPattern pat;
+          pat.kind = kind; pat.m = m; pat.a = kind == 'F' ? 0 : PR[ai]; pat.b = kind == 'F' ? 0 : PR[bi]; pat.q = QS[qi];
+          for (int variant = 0; variant < 2; variant++) for (int tie = 0; tie < 2; tie++) {
+            if (variant == 1 && (kind != 'P' || offs != 0)) continue;
+            IdealPoll w;
+            w.tie = tie; w.variant = variant;
+            std::vector<int> p0;
+            bool hasMin = false;
+            for (int i = 0; i < 3; i++) {
+              long o = (offs >> i) & 1 ? pr[i] : 0;
+              if (o == 0) hasMin = true;
+              w.o.push_back(o); w.p.push_back(pr[i]); p0.push_back(pr[i]);
+            }
+            if (!hasMin) continue;
+            std::vector<int> ev = idealPerturbedRun(&w, pat);
+            std::vector<RefPoll::Finding> f = RefPerturbed(pat, p0).judge(ev);
+            if (variant == 0 && !f.empty()) {
+              snprintf(b, sizeof(b), "ideal algorithm rejected in perturbed run %s priorities %d,%d,%d offsets %d tie %d: %s %s", pat.str().c_str(), pr[0], pr[1], pr[2], offs, tie, f[0].rule.c_str(), f[0].detail.c_str());
+              *why = b;
+              return false;
+            }
+            if (variant == 1) for (auto& x : f) if (x.rule == "wait-bound-perturbed") defectSeen = true;
+          }
+        }
+      }
+    }
+    if (!defectSeen) { *why = "postponing setPollPriority variant not rejected by any perturbed run"; return false; }
+    // hand trace: priorities 1,1 and m2 toggling 3/9 every selection under the postponing variant is starved
+    IdealPoll w;
+    w.variant = 1;
+    w.o = {0, 0, 0}; w.p = {1, 1, 3};
+    PerturbPattern pat;
+    pat.kind = 'P'; pat.m = 2; pat.a = 9; pat.b = 3; pat.q = 1;
+    bool starved = false;
+    for (auto& x : RefPerturbed(pat, {1, 1, 3}).judge(idealPerturbedRun(&w, pat))) if (x.rule == "wait-bound-perturbed" && x.msg == 2) starved = true;
+    if (!starved) { *why = "starvation by repeated postponing not rejected"; return false; }
   }
   {  // negative: no message
     RefPoll ref({1, 2});
